@@ -40,6 +40,8 @@ def main():
             if r.returncode != 0:
                 lines = [ln.strip() for ln in r.stdout.splitlines() if ln.startswith(("VIOLATION", "  class=", "HARNESS"))]
                 out["checks"][p] = {"exit": r.returncode, "lines": [ln[:420] for ln in lines[:4]] or [r.stdout[-500:]]}
+                if r.returncode == 2:
+                    out["checks"][p]["stderr"] = r.stderr[-2500:]
                 # keep the replay for inspection
                 for ln in r.stdout.splitlines():
                     if ln.startswith("VIOLATION"):
